@@ -341,6 +341,7 @@ where
     A: DecoderArithmetic,
     A::VarMessage: Num,
     A::CheckMessage: Num,
+    A::VarLlr: Num,
 {
     let i8t = is_i8(name);
     let f32t = name.ends_with("f32");
@@ -358,6 +359,8 @@ where
         let d = match k % 5 {
             0 => rng.range(8, 30),
             1 => rng.range(2, 4),
+            // now and then a check node far above the usual degrees (fixed-size scratch space would show here)
+            2 if k % 25 == 7 => rng.range(31, 90),
             _ => rng.range(2, 30),
         };
         let (vals, in_range) = gen_values(rng, &cx, d, range);
@@ -379,6 +382,27 @@ where
                 }
                 if k == 0 {
                     l.sample(|| detail(&cx, &src, &vals, &out, "sample".into()));
+                }
+            }
+        }
+        // the same check node through the layered entry point: with all old messages zero the extrinsic values are
+        // the variable values themselves, so the new messages are check-node messages for `vals` and are judged alike
+        if k % 3 == 0 {
+            let mut msgs: Vec<SentMessage<A::CheckMessage>> = src.iter().map(|&s| SentMessage { dest: s, value: <A::CheckMessage as Num>::from_f64(0.0) }).collect();
+            let mut vars: Vec<A::VarLlr> = vec![<A::VarLlr as Num>::from_f64(0.0); 1000];
+            for (&s, &v) in src.iter().zip(&vals) {
+                vars[s] = <A::VarLlr as Num>::from_f64(v);
+            }
+            l.eval();
+            match guard(|| a.update_check_messages_and_vars(&mut msgs, &mut vars)) {
+                Err(p) => {
+                    l.violation(format!("{}: update_check_messages_and_vars panicked: {}", name, panic_class(&p)), detail(&cx, &src, &vals, &[], p));
+                    a = mk();
+                }
+                Ok(()) => {
+                    let out: Vec<(usize, f64)> = msgs.iter().map(|m| (m.dest, m.value.to_f64())).collect();
+                    l.count("layered_entry_point_calls");
+                    judge(l, &cx, &src, &vals, &out, in_range);
                 }
             }
         }
@@ -468,7 +492,12 @@ pub fn run(run: &mut Run) {
     let calls = if cfg!(miri) { 6 } else { 40 };
     run.sub("random", per_type * 24, move |l, idx, rng| {
         let name = ARITH_NAMES[(idx % 24) as usize];
-        with_arith!(name, A, { run_generic::<A>(l, name, &|| <A>::new(), rng, calls) }, { panic!("unknown arithmetic") });
+        // a third of the objects are made by Default::default() instead of new(): the same arithmetic either way
+        let dflt = (idx / 24) % 3 == 2;
+        if dflt {
+            l.count("objects_built_by_default");
+        }
+        with_arith!(name, A, { run_generic::<A>(l, name, &|| if dflt { <A as Default>::default() } else { <A>::new() }, rng, calls) }, { panic!("unknown arithmetic") });
     });
     if !cfg!(miri) {
         let names8: Vec<&'static str> = ARITH_NAMES.iter().cloned().filter(|n| is_i8(n)).collect();
